@@ -10,7 +10,9 @@
  * isal_deflate_finish_base (in call order), the bit count c_k:
  *      c_k == 0     no constraint (used for end-of-block codes, whose length is concrete anyway)
  *      c_k in 1..63 assume(count == c_k) and continue with the constant
- *      c_k == 255   assume(count is none of DFL_CLASS_SET)  ("OTHER": proves the case split complete)
+ *      c_k == 255   assert(count is one of DFL_CLASS_SET) and stop the path ("OTHER": for every input with
+ *                   the given prefix of classes the k-th code length lies in the swept set, i.e. the case
+ *                   split is complete)
  * The assumption restricts the *input bytes* to those whose code has that length; sweeping all vectors
  * over DFL_CLASS_SET at each position plus one OTHER query per prefix covers every input.  A vector whose
  * shape does not match the execution (e.g. constrains an end-of-block write) makes the query vacuous,
@@ -47,8 +49,12 @@ write_bits(struct BitBuf2 *me, uint64_t code, uint32_t count)
         if (dfl_k < sizeof(dfl_class) - 1) {
                 uint8_t c = dfl_class[dfl_k];
                 if (c == 255) {
+                        int in_set = 0;
                         for (unsigned j = 0; j < sizeof(dfl_class_set) - 1; j++)
-                                __CPROVER_assume(count != dfl_class_set[j]);
+                                if (count == dfl_class_set[j])
+                                        in_set = 1;
+                        __CPROVER_assert(in_set, "code length class set of the sweep is complete at this position");
+                        __CPROVER_assume(0);
                 } else if (c != 0) {
                         __CPROVER_assume(count == c);
                         count = c;
